@@ -1,1 +1,46 @@
-// binaries only
+//! Helpers shared by the structural property binaries.
+
+use stateright::{Checker, Model, Property};
+use std::fmt::Debug;
+use std::hash::Hash;
+
+/// The same transition function wrapped as a `stateright::Model`: an independent second
+/// explorer used to cross-check the home-grown BFS engine's dedup and frontier logic
+/// (DESIGN 2.4). Not a second verdict: only the state counts are compared.
+struct Wrapped<S, F> {
+    inits: Vec<S>,
+    n_actions: usize,
+    step: F,
+}
+impl<S, F> Model for Wrapped<S, F>
+where
+    S: Clone + Hash + Eq + Debug + Send + Sync + 'static,
+    F: Fn(&S, usize) -> Option<S> + Send + Sync + 'static,
+{
+    type State = S;
+    type Action = usize;
+    fn init_states(&self) -> Vec<S> {
+        self.inits.clone()
+    }
+    fn actions(&self, _s: &S, out: &mut Vec<usize>) {
+        out.extend(0..self.n_actions);
+    }
+    fn next_state(&self, s: &S, a: usize) -> Option<S> {
+        (self.step)(s, a)
+    }
+    fn properties(&self) -> Vec<Property<Self>> {
+        vec![Property::always("explore everything", |_, _| true)]
+    }
+}
+
+/// number of distinct states stateright's single-threaded BFS reaches within `depth` transitions
+pub fn stateright_states<S, F>(inits: Vec<S>, n_actions: usize, depth: usize, step: F) -> usize
+where
+    S: Clone + Hash + Eq + Debug + Send + Sync + 'static,
+    F: Fn(&S, usize) -> Option<S> + Send + Sync + 'static,
+{
+    let m = Wrapped { inits, n_actions, step };
+    // stateright counts the initial states as depth 1
+    let c = m.checker().threads(1).target_max_depth(depth + 1).spawn_bfs().join();
+    c.unique_state_count()
+}
